@@ -167,6 +167,9 @@ impl Trace {
     pub fn line(&mut self, v: serde_json::Value) {
         let _ = serde_json::to_writer(&mut self.out, &v);
         let _ = self.out.write_all(b"\n");
+        // unbuffered on purpose: when the watchdog ends the process inside a library call that never
+        // returns, every line logged before that call must already be in the file
+        let _ = self.out.flush();
         self.lines += 1;
     }
     pub fn raw(&mut self, s: &str) {
